@@ -592,7 +592,7 @@ theorem diffAcl_inv (e : Env) (hA : RefsClosedA e) {st : St} (h : Inv (D0 e) st)
     · simp only []
       split
       · exact transferAcl_inv e (markDeletedAcl_inv e (inv_hit h _) aN) bN
-      · have h0 : Inv (D0 e) ({ st with aName := (bN, aN) :: st.aName }.hit "acl:incremental") :=
+      · have h0 : Inv (D0 e) (({ st with aName := (bN, aN) :: st.aName }.hit "acl:incremental").hit (planCheck e st aN bN (lookupD e.sc.acl (aN, bN)))) :=
           inv_of_eq h rfl rfl rfl
         have h1 := diffASAACLs_inv e hA h0 aN bN (lookupD e.sc.acl (aN, bN))
         exact inv_of_eq h1 rfl rfl rfl
